@@ -136,6 +136,26 @@ def c18(thorough):
         runs += 1
         if r is not None or left:
             probs.append('exhaust(iter(%r)): returned %r, left unconsumed %r' % (vals, r, left))
+    # a failure while pulling is the caller's to see, whatever its class; what came before it has been pulled
+    for exc_cls in (TypeError, ValueError, KeyError, StopAsyncIteration, KeyboardInterrupt):
+        pulled = []
+
+        def failing():
+            for i in range(5):
+                if i == 2:
+                    raise exc_cls('at element 2')
+                pulled.append(i)
+                yield i
+        runs += 1
+        try:
+            r = exhaust(failing())
+            probs.append('exhaust(<iterable raising %s at its third element>) returned %r after pulling %r'
+                         % (exc_cls.__name__, r, pulled))
+        except exc_cls:
+            if pulled != [0, 1]:
+                probs.append('exhaust(<iterable raising at its third element>) pulled %r before the failure' % (pulled,))
+        except BaseException as e:  # noqa
+            probs.append('exhaust(<iterable raising %s>) raised %r instead' % (exc_cls.__name__, e))
     # a lazy iterable that is sized (a progress wrapper, a view): exhaust still has to run it dry
     class SizedLazy:
         def __init__(self, n):
@@ -272,6 +292,22 @@ def c19(thorough):
                     pass
                 except BaseException as e:  # noqa
                     probs.append('string without separator raised %r' % (e,))
+    # keys and values that are not strings pass through untouched, with parse_keys on and off, in every input shape
+    class K:
+        def __repr__(self):
+            return 'K()'
+    k_obj = K()
+    for key in (1, None, 2.5, (1, 2), k_obj, b'b', True):
+        for pk in (True, False):
+            for shape, items in (('mapping', {key: 'v'}), ('pairs', [(key, 'v')]), ('pair list', [[key, 'v']]),
+                                 ('generator', ((k_, v_) for k_, v_ in [(key, 'v')]))):
+                runs += 1
+                try:
+                    got = parse_to_dict(items, parse_keys=pk)
+                except BaseException as e:  # noqa
+                    got = e
+                if not isinstance(got, dict) or list(got.items()) != [(key, 'v')] or type(list(got)[0]) is not type(key):
+                    probs.append('parse_to_dict(%s with the non-string key %r, parse_keys=%r) -> %r' % (shape, key, pk, got))
     # a string is a string whatever its exact class (str mixin enums, markup-safe strings, ...)
     class Tagged(str):
         pass
